@@ -61,7 +61,10 @@ pub fn case_strategy() -> impl Strategy<Value = BkCase> {
             // the settlement must be refused whatever the bank's state
             let crash_pm = if collateral_state != 0 && crash_pm < 50 && crash_pm % 2 == 0 { 1000 - crash_pm * 10 } else { crash_pm };
             for (i, b) in banks.iter_mut().enumerate() {
-                b.init_limit = 0;
+                // the collateral bank keeps its generated collateral-value cap (an initial-weight discount only)
+                if i != 0 {
+                    b.init_limit = 0;
+                }
                 b.emode_tag = 0;
                 b.emode_entries.clear();
                 if i == 0 {
